@@ -182,6 +182,41 @@ def leaves(t, _depth=0):
     raise Unsupported("leaves of %r (%s)" % (t, k))
 
 
+def rid_flags(t, _depth=0):
+    """Parallel to leaves(t): True for leaves that hold a region / object id (not a 32-bit integer)."""
+    u = t.under()
+    k = u.k
+    if k == "basic":
+        b = u.d.get("b")
+        if b == "string":
+            return [True, False, False]
+        if b in ("int", "bool", "float"):
+            return [False]
+        return [True]
+    if k == "slice":
+        return [True, False, False, False]
+    if k == "ptr":
+        return [True]
+    if k == "iface":
+        return [False, True]
+    if k in ("chan", "map", "sig", "typeparam", "other"):
+        return [True]
+    if k == "array":
+        et = t.prog.types[u.d["elem"]]
+        if is_scalar_type(et):
+            return [False]
+        out = []
+        for i in range(u.d["len"]):
+            out.extend(rid_flags(et, _depth + 1))
+        return out
+    if k == "struct":
+        out = []
+        for name, ft, _ in t.fields():
+            out.extend(rid_flags(ft, _depth + 1))
+        return out
+    raise Unsupported("rid_flags of %r" % t)
+
+
 def flatten(v, t):
     u = t.under()
     k = u.k
